@@ -49,7 +49,8 @@ EndStep ==
     /\ l <= Len(Tr[tid]) /\ j = Len(St.ev) + 1
     /\ cup = St.cup /\ sup = St.sup
     \* both up: everything sent has been received, and both sides name the same transport
-    /\ (cup /\ sup) => (crecv = ssent /\ srecv = csent /\ St.ctr = St.str)
+    \* (settled: nothing is on the wire)
+    /\ (cup /\ sup /\ St.settled) => (crecv = ssent /\ srecv = csent /\ St.ctr = St.str)
     \* nobody ends the connection unasked (heartbeats keep an idle connection alive)
     /\ ~asked => (cdiscs = 0 /\ sdiscs = 0)
     /\ l' = l + 1 /\ j' = 0
